@@ -16,5 +16,4 @@ cd /verif
 VERIF_REPO="$wt" VERIF_REPLAY_DIR=/var/tmp/vt/mutreplays ./check "$prop" "$tier" 2>&1 | grep -E "VIOLATION|INCONCLUSIVE|KNOWN|held on|phase=" | cut -c1-400
 rc=${PIPESTATUS[0]}
 git -C "$wt" checkout -- . && git -C "$wt" clean -fdq
-git -C /verif checkout -- evidence/$prop.json 2>/dev/null
 echo "rc=$rc"
